@@ -60,20 +60,25 @@ add("ewm(alpha=.5).mean", "ewm.mean", "last", lambda d: d.x.ewm(alpha=0.5).mean(
 add("ewm(com=1).mean[frame]", "ewm.mean", "last", lambda d: d[["x", "y"]].ewm(com=1).mean(), classify=EWM, cols=("x", "y"))
 
 ROWS = [k for k in SPECS if not any(t in k for t in ("ns)", "s)"))]
+ROWS5 = [k for k in ROWS if not k.startswith(("rolling(1)", "rolling(2)"))]
 T_NS = [k for k in SPECS if "ns)" in k]
+T_NS_CORE = [k for k in T_NS if "[frame]" not in k]
 T_S = [k for k in SPECS if "s)" in k and "ns)" not in k]
 LONG = ["rolling(3).sum", "rolling(3).count", "rolling(2).mean", "cumsum", "expanding.sum", "ewm(com=1).mean"]
 
 
 def plan(ctx):
     if ctx.thorough:
-        return [F.Suite(ROWS, "v", {1: 2, 2: 2, 3: 2, 4: 2, 5: 1}),
-                F.Suite(T_NS, "v", {1: 2, 2: 2, 3: 2, 4: 1}, grid="ns"),
+        return [F.Suite(ROWS, "v", {1: 2, 2: 2, 3: 2, 4: 2}),
+                F.Suite(ROWS5, "v", {5: 1}),
+                F.Suite(T_NS, "v", {1: 2, 2: 2, 3: 2}, grid="ns"),
+                F.Suite(T_NS_CORE, "v", {4: 1}, grid="ns"),
                 F.Suite(T_S, "v", {1: 2, 2: 2, 3: 2}, grid="s"),
                 F.Suite(LONG, "one", {5: 1, 6: 1, 7: 0})]
     return [F.Suite(ROWS, "v", {1: 1, 2: 1, 3: 1}),
-            F.Suite(T_NS, "v", {1: 1, 2: 1, 3: 1}, grid="ns"),
-            F.Suite(T_S, "v", {1: 1, 2: 1, 3: 1}, grid="s"),
+            F.Suite(T_NS, "v", {1: 1, 2: 1}, grid="ns"),
+            F.Suite(T_NS_CORE, "v", {3: 1}, grid="ns"),
+            F.Suite(T_S, "v", {1: 1, 2: 1}, grid="s"),
             F.Suite(LONG, "one", {5: 0, 6: 0})]
 
 
